@@ -202,6 +202,9 @@ func report(r *core.Run, class string, k kase, expected, got string, bad func() 
 // ---------------------------------------------------------------------------
 
 func run(r *core.Run) {
+	if rr := os.Getenv("RACE_RESULT"); rr != "" {
+		r.Extra("race_detector_pass", rr)
+	}
 	r.Assume("runtimes are core-language environments (no stdlib): every name used (defmacro, macrolet, macroexpand, macroexpand-1, eval, quasiquote, unquote, unquote-splicing, gensym, debug-print, trace, get-default) is a core builtin")
 	r.Assume("errors are compared by error/non-error class and condition name only; values as typed trees (kind, payload, quote depth = LQuote wrappers + quote flag); function values by their printed form")
 	r.Assume("gensym names are renamed by order of first occurrence before two renderings are compared (the equal/distinct pattern is kept); gensym distinctness itself is space C")
